@@ -8,13 +8,13 @@ for f in sorted(glob.glob('/verif/regress/*__C??-?.json')):
     d = json.load(open(f))
     disc = (d.get('discrepancies') or [{}])[0]
     rows[seed] = (chk, disc.get('kind', ''), (disc.get('detail') or '')[:150].replace('|', '/'))
-seeds = sorted(x for x in os.listdir('/verif/seeded') if os.path.isdir('/verif/seeded/' + x))
+seeds = sorted(x for x in os.listdir('/verif/seeded') if os.path.isdir('/verif/seeded/' + x) and x[0] == 'C')
 out = ['# Seeded defects and the check that reports them (quick tier, default seed)', '',
        'Produced by tools/harvest.py + tools/mkresults.py. "own" = the check of the property the change was written against.', '',
        '| seed | round | reported by | discrepancy |', '|---|---|---|---|']
 own = sib = miss = 0
 for s in seeds:
-    rnd = {'a': 1, 'b': 1, 'c': 2, 'd': 2, 'e': 3, 'f': 3, 'g': 4, 'h': 4, 'i': 5, 'j': 5, 'k': 6, 'l': 6, 'm': 7, 'n': 7, 'o': 8, 'p': 8, 'q': 9, 'r': 9}.get(s[-1], '?')
+    rnd = {'a': 1, 'b': 1, 'c': 2, 'd': 2, 'e': 3, 'f': 3, 'g': 4, 'h': 4, 'i': 5, 'j': 5, 'k': 6, 'l': 6, 'm': 7, 'n': 7, 'o': 8, 'p': 8, 'q': 9, 'r': 9, 's': 10}.get(s[-1], '?')
     if s in rows:
         chk, kind, det = rows[s]
         if chk == s[:3]:
